@@ -48,6 +48,13 @@ func runFaultFamily(s *Sim, prop string) {
 		AliasAtOpen: t.Bool("alias-at-open", 1, 2),
 		AliasInAck:  t.Bool("alias-in-ack", 1, 2),
 	}
+	// a long backlog of unacknowledged chunks (more than the 1024 the wire layer buffers per stream):
+	// everything the broker has not acknowledged must still be retransmitted after a resume
+	bulk := 0
+	if prop == "C02" && t.Bool("bulk-unacked", 1, 25) {
+		bulk = Pick(t, "bulk-n", 1100, 1030, 1500)
+		bc.AutoAck = false
+	}
 	y := newSys(s, bc)
 	fc := &faultCtx{y: y, prop: prop, resumeCut: map[uuid.UUID]bool{}, refused: map[uuid.UUID]bool{}, lostCalls: map[string]bool{}}
 	if t.Bool("json", 1, 4) {
@@ -118,6 +125,9 @@ func runFaultFamily(s *Sim, prop string) {
 		sp := drawUpSpec(s, prop)
 		if prop == "C02" && i == 0 {
 			sp.QoS = message.QoSReliable
+			if bulk > 0 {
+				sp.Policy = "immediate"
+			}
 		}
 		sp.CloseTimeout = Pick(t, "closeto", time.Duration(0), 30*time.Second)
 		sp.AckTimeout = Pick(t, "ackto", time.Duration(0), 0, 3*time.Second, time.Hour)
@@ -141,6 +151,23 @@ func runFaultFamily(s *Sim, prop string) {
 		}
 	}
 	baseUps, baseDowns := len(y.Ups), len(y.Downs)
+	if bulk > 0 {
+		s.Stat("env.bulk-unacked-backlog")
+		h := y.Ups[0]
+		for i := 0; i < bulk; i++ {
+			op := s.Start(1, y.writeOp(h, 1, dataID(i%nIDs), []int{8}))
+			s.Wait()
+			s.Harvest()
+			if !op.harvested {
+				s.HarnessError("bulk write %d does not return on a healthy connection", i)
+				return
+			}
+		}
+		// the frames are still in flight: the fault decides how many of them the broker sees
+		if t.Bool("bulk-fault-now", 3, 4) {
+			fc.fault()
+		}
+	}
 
 	netActs := func(acts []Action) []Action {
 		for _, l := range y.aliveLinks() {
